@@ -20,7 +20,7 @@ SPEC = ([("l%d" % i, int) for i in range(1, MAXN)] +
 
 
 @with_signature(SPEC)
-def c07_reroot(**kw):
+def c07_reroot(kw):
     op = kw["op"]
     parents = list(kw["shape"])
     n = len(parents) + 1
